@@ -4,12 +4,14 @@
 (* (per file: bounds check, overlap-detecting merge; then fill, digest,    *)
 (* write) over ALL placements of up to NREC records of length RLEN in a    *)
 (* window around an area of SIZE bytes (inside, touching both borders, one *)
+(* byte out; partial overlap, enclosing, enclosed, identical - in every     *)
+(* order, hence two record lengths)                                        *)
 (* byte out, overlapping by one byte).  Scaled-down constants; the record  *)
 (* content is irrelevant to placement.  Also the policy table of Record.   *)
 (***************************************************************************)
 EXTENDS Mpi, Json
 
-CONSTANTS SIZE, RLEN, NREC, WINDOW,   \* offsets range over -WINDOW .. SIZE + WINDOW
+CONSTANTS SIZE, RLENS, NREC, WINDOW,   \* record lengths; offsets range over -WINDOW .. SIZE + WINDOW
           EMIT
 
 VARIABLES todo,     \* input files still to merge (sequence of [off, bytes])
@@ -20,13 +22,13 @@ VARIABLES todo,     \* input files still to merge (sequence of [off, bytes])
 
 vars == <<todo, all, mem, phase, out>>
 
-RecBytes(k) == [i \in 1..RLEN |-> k * 16 + i]
+RecBytes(k, n) == [i \in 1..n |-> k * 16 + i]
 Offsets == (0 - WINDOW)..(SIZE + WINDOW)
 
 RECURSIVE SeqsUpTo(_)
 SeqsUpTo(n) == IF n = 0 THEN {<<>>}
                ELSE LET shorter == SeqsUpTo(n - 1) IN
-                    shorter \cup {Append(s, [off |-> o, bytes |-> RecBytes(Len(s) + 1)]) : s \in {x \in shorter : Len(x) = n - 1}, o \in Offsets}
+                    shorter \cup {Append(s, [off |-> o, bytes |-> RecBytes(Len(s) + 1, rl)]) : s \in {x \in shorter : Len(x) = n - 1}, o \in Offsets, rl \in RLENS}
 
 Init == /\ all \in SeqsUpTo(NREC)
         /\ todo = all /\ mem = <<>> /\ phase = "merging" /\ out = <<>>
@@ -37,8 +39,8 @@ Covered == DOMAIN mem
 MergeFile ==
   /\ phase = "merging" /\ todo # <<>>
   /\ LET f == Head(todo)
-         cells == {f.off + i : i \in 1..RLEN} IN
-     IF f.off < 0 \/ f.off + RLEN - 1 > SIZE - 1
+         cells == {f.off + i : i \in 1..Len(f.bytes)} IN
+     IF f.off < 0 \/ f.off + Len(f.bytes) - 1 > SIZE - 1
      THEN phase' = "rejected" /\ UNCHANGED <<mem, out>>
      ELSE IF cells \cap Covered # {}
      THEN phase' = "rejected" /\ UNCHANGED <<mem, out>>
@@ -66,13 +68,13 @@ RejectWritesNothing == phase = "rejected" => out = <<>>
 WrittenIsTheSpecifiedImage ==
   phase = "written" => out = MergedRegions(<<0, 0>>, SIZE, all, Digest)[1].bytes
 InputsAtOriginalAddresses ==
-  phase = "written" => \A i \in 1..Len(all) : SubSeq(out, all[i].off + 1, all[i].off + RLEN) = all[i].bytes
+  phase = "written" => \A i \in 1..Len(all) : SubSeq(out, all[i].off + 1, all[i].off + Len(all[i].bytes)) = all[i].bytes
 FFElsewhere ==
   phase = "written" => \A p \in 1..SIZE :
-      (~\E i \in 1..Len(all) : all[i].off < p /\ p <= all[i].off + RLEN) => out[p] = 255
+      (~\E i \in 1..Len(all) : all[i].off < p /\ p <= all[i].off + Len(all[i].bytes)) => out[p] = 255
 
 Emit == (EMIT /\ phase # "merging") =>
-          PrintT("SCN " \o ToJson([offs |-> [i \in 1..Len(all) |-> all[i].off], phase |-> phase]))
+          PrintT("SCN " \o ToJson([offs |-> [i \in 1..Len(all) |-> all[i].off], lens |-> [i \in 1..Len(all) |-> Len(all[i].bytes)], phase |-> phase]))
 
 \* policy table and record shape
 Uuid(k) == [i \in 1..16 |-> k + i]
